@@ -5,11 +5,16 @@
     - [CHI]: histories of hook-driven steps: the complete per-slot state after every step (sent as deltas:
              the slots named in the delta must equal the given pieces, all other slots must be unchanged);
     - [CSkip]: a case whose result is too large for the model run (oracles only). *)
-From G3 Require Import Run.Harness Run.FastNum Model.Vec Model.Segment Model.Triangle Model.Loop Model.Polygon Model.Triangulation.
-(** executed on [NumFfast] (= [NumF], see Run/FastNum.v) *)
-#[local] Existing Instance NumFfast | 0.
+From G3 Require Import Run.Harness Run.FastNum Run.FastNum32 Model.NumF32 Model.Vec Model.Segment Model.Triangle Model.Loop Model.Polygon Model.Triangulation.
+(** The runner text is written once, in a section over the number instance [NK : Num float]; module [Mesh] runs it on
+    [NumFfast] (= [NumF], see Run/FastNum.v) against the f64 build; against the build with `--features float`, module [Meshf32]
+    runs it on [NumF32fast] (= [NumF32]: the binary32 instance with the rounding step done by primitive operations, proved equal in
+    Run/FastNum32Proof.v) and module [Meshf32ref] on [NumF32memo] (= [NumF32] with Flocq's own rounding, ~1000 times slower: kept
+    for cross-checks, stream argument --ref32).  Nothing here is downstream of libm: every comparison is bit for bit in all three. *)
 
 Definition K := float.
+Section WithInstance.
+Context {NK : Num float}.
 Fixpoint unflat (l : list spec_float) : list (V3 K) :=
   match l with
   | a :: b :: c :: tl => mkV3 (SF2Prim a) (SF2Prim b) (SF2Prim c) :: unflat tl
@@ -189,6 +194,14 @@ Definition chk (c : mcase) : N :=
     end
   end.
 
+End WithInstance.
+
 Module Mesh.
-  Definition run := run_cases chk.
+  Definition run := run_cases (@chk NumFfast).
 End Mesh.
+Module Meshf32.
+  Definition run := run_cases (@chk NumF32fast).
+End Meshf32.
+Module Meshf32ref.
+  Definition run := run_cases (@chk NumF32memo).
+End Meshf32ref.
